@@ -255,8 +255,19 @@ func GenScript(r *hlib.Rng, profile string, maxOps int) Script {
 // genPub: one publish op — or, for a key-frame slice, sometimes a key frame of several slice packets
 // (same RTP timestamp); any packet may share the timestamp of its predecessor (parameter sets and the
 // slices of one access unit do)
-func genPub(r *hlib.Rng, k Kind) []Op {
-	ops := []Op{{Code: 'P', Kind: k, Extra: genExtra(r), SameTs: r.Chance(25)}}
+func genPub(r *hlib.Rng, k Kind) (ops []Op) {
+	ops = []Op{{Code: 'P', Kind: k, Extra: genExtra(r), SameTs: r.Chance(25)}}
+	// every packet of one key frame carries the same H.265 IRAP type (16..21, derived from the first
+	// packet's body length: no extra random draw), see MkPkt
+	defer func() {
+		t := 1 + ops[0].Extra%6
+		for i := range ops {
+			switch ops[i].Kind {
+			case KKey, KFuKeyS, KFuKeyM, KStapKey:
+				ops[i].Extra |= t << 8
+			}
+		}
+	}()
 	if (k == KKey || k == KFuKeyS) && r.Chance(45) {
 		// a key frame of 2–3 slices, each a single NAL packet or fragmented (start fragment + later
 		// fragments), all with one timestamp
